@@ -888,7 +888,7 @@ where
             s.spawn(move || {
                 let mut acc = Acc::default();
                 let mut buf: Vec<u8> = Vec::new();
-                let mut one = |input: &[u8], acc: &mut Acc| {
+                let one = |input: &[u8], acc: &mut Acc| {
                     let fp = fingerprint(input);
                     let fresh = seen[(fp.0 as usize) % SHARDS].lock().unwrap().insert(fp);
                     if fresh {
